@@ -94,10 +94,70 @@ seed_sequence(int role, int n, const int *smode, const int *inject, const int *e
 	tp_ep_free(&ep);
 }
 
+/* A refused reset, then injected entropy, then the reset that starts: what the endpoint then emits depends on the
+   injected bytes (two contexts with that history and different injected seeds do not produce the same hello random).
+   Client: the random of its ClientHello; server: the random of its ServerHello in answer to one fixed ClientHello. */
+static int
+random_after_refusal(int role, int dead_mode, unsigned seedbyte, unsigned char *out32, const unsigned char *ch, size_t chlen)
+{
+	tp_ep ep;
+	tp_cfg c;
+	size_t l;
+	unsigned char *b;
+	int ok = 0, n = 0;
+	memset(&ep, 0, sizeof ep);
+	tp_cfg_default(&c, role);
+	c.seeder_mode = dead_mode; c.inject_entropy = 0;
+	memset(c.seed, 0x11, 32);
+	if (tp_ep_start(&ep, &c) != 0) { tp_ep_free(&ep); return 0; }      /* (judged by the sequences above) */
+	c.reuse_ctx = 1; c.inject_entropy = 1;
+	memset(c.seed, (int)seedbyte, 32);
+	if (tp_ep_start(&ep, &c) != 1) { tp_ep_free(&ep); return 0; }
+	if (role == 1) {
+		size_t off = 0;
+		while (off < chlen && n ++ < 1000 && (b = br_ssl_engine_recvrec_buf(ep.eng, &l)) != NULL) {
+			if (l > chlen - off) l = chlen - off;
+			memcpy(b, ch + off, l); off += l;
+			br_ssl_engine_recvrec_ack(ep.eng, l);
+		}
+	}
+	b = br_ssl_engine_sendrec_buf(ep.eng, &l);
+	if (b != NULL && l >= 43 && b[0] == 22 && b[5] == (role ? 2 : 1)) { memcpy(out32, b + 11, 32); ok = 1; }
+	tp_ep_free(&ep);
+	return ok;
+}
+
+static void
+seed_after_refusal(int role, int dead_mode, const char *tag)
+{
+	unsigned char ra[32], rb[32], ch[600];
+	size_t chlen = 0;
+	snprintf(tp_case, sizeof tp_case, "%s seeding-after-refusal=%s role=%d", mode_desc, tag, role);
+	if (role == 1) {
+		/* one fixed ClientHello from an ordinary client */
+		tp_ep e; tp_cfg c; size_t l; unsigned char *b;
+		memset(&e, 0, sizeof e);
+		tp_cfg_default(&c, 0);
+		c.seeder_mode = dead_mode; c.inject_entropy = 1; memset(c.seed, 0x77, 32);
+		if (!tp_ep_start(&e, &c) || (b = br_ssl_engine_sendrec_buf(e.eng, &l)) == NULL || l > sizeof ch) { tp_ep_free(&e); return; }
+		memcpy(ch, b, l); chlen = l;
+		tp_ep_free(&e);
+	}
+	if (!random_after_refusal(role, dead_mode, 0x41, ra, ch, chlen) || !random_after_refusal(role, dead_mode, 0x42, rb, ch, chlen)) {
+		vf_stat("seed_after_refusal_not_observed", 1);
+		return;
+	}
+	vf_stat("seed_after_refusal_compared", 1);
+	if (memcmp(ra, rb, 32) == 0) {
+		TP_VIOL("injected-entropy-ignored", "two contexts (refused reset, then 32 injected bytes, then the reset that starts) given different injected bytes emit the same hello random");
+	}
+}
+
 static void
 seed_sequences(int role, int dead_mode, const char *tag)
 {
 	char name[80];
+	seed_after_refusal(role, dead_mode, tag);
 	{
 		int m[4] = { dead_mode, dead_mode, dead_mode, dead_mode }, in[4] = { 0, 0, 0, 0 }, ex[4] = { 0, 0, 0, 0 };
 		snprintf(name, sizeof name, "%s:refused-x4", tag);
